@@ -243,6 +243,49 @@ func runC10(r *Run) {
 		}
 	}
 	r.Expect("C10.5", 3, "persisted collections")
+
+	// ---- C10.6 redelivery after a crash: a replay writes the replayed header, then the precommits.
+	// A stop between the two leaves the header recorded; after restart the same replay is delivered
+	// again and repeats the first write, which therefore must not be refused because the header is
+	// already in the replayed list (only a clash with a *proposed* header of that hash is refused).
+	r.Rule("C10.6", "the shipped round store accepts a replayed header it has already recorded (a replay interrupted between its two store writes is redelivered after restart); the kernel issues the replayed-header write before the precommit write")
+	if fn := w.Fn("tmmemstore.RoundStore.SaveRoundReplayedHeader"); fn != nil {
+		a := w.AU(fn)
+		bad := ""
+		for _, ret := range a.Returns() {
+			if k, ok := ret.Results[0].(*ssa.Const); ok && k.IsNil() {
+				continue
+			}
+			for _, b := range a.blocks() {
+				ifi, ok := b.Instrs[len(b.Instrs)-1].(*ssa.If)
+				if !ok || !strings.Contains(a.sh.Of(ifi.Cond).String(), ".replayedHeaders") {
+					continue
+				}
+				for succ := 0; succ < 2; succ++ {
+					if a.EveryPathTakes(ret, []Edge{{b, succ}}) {
+						bad = w.InstrPos(ifi)
+					}
+				}
+			}
+		}
+		r.Check(bad == "", "C10.6", "tmmemstore.RoundStore.SaveRoundReplayedHeader(idempotent)", w.Pos(fn.Pos()), "an error return depends on the header already being in the replayed list (test at "+bad+"): the redelivered replay after a crash between the two writes is refused for ever")
+	} else {
+		r.Fail("C10.6", "tmmemstore.RoundStore.SaveRoundReplayedHeader", "", "function not found")
+	}
+	if fn := w.Fn("tmi.Kernel.handleReplayedHeader"); fn != nil {
+		a := w.AU(fn)
+		saves := a.CallsTo("tmstore.RoundStore.SaveRoundReplayedHeader")
+		writes := a.CallsTo("tmstore.RoundStore.OverwriteRoundPrecommitProofs")
+		ok := len(saves) >= 1 && len(writes) >= 1
+		for _, wr := range writes {
+			for _, sv := range saves {
+				if ReachesAfter(wr, sv) && !ReachesAfter(sv, wr) {
+					ok = false
+				}
+			}
+		}
+		r.Check(ok, "C10.6", "tmi.Kernel.handleReplayedHeader(write-order)", w.Pos(fn.Pos()), fmt.Sprintf("replayed header saved (%d site) before the precommits are written (%d site)", len(saves), len(writes)))
+	}
 }
 
 func runC11(r *Run) {
